@@ -71,7 +71,8 @@ def handle (line : String) : String :=
     | "inst", [ids, .list plugs, p] =>
       match natList? ids, plugs.mapM patOfSexp, patOfSexp p with
       | some ids, some plugs, some p =>
-        if ids.length != plugs.length then "bad-request" else optPatStr (inst (lookupPlug ids plugs) p)
+        -- `instantiate_in_place`: the faithful model with the "unchanged" optimisation (`instU`)
+        if ids.length != plugs.length then "bad-request" else optPatStr ((instU ids plugs p).map (·.getD p))
       | _, _, _ => "bad-request"
     | "verify", [.atom g, .atom c, .atom p] =>
       match bytesOfHex g, bytesOfHex c, bytesOfHex p with
